@@ -501,8 +501,8 @@ def object_case(rng, idx, stats):
         st("ob_deriv_cls2")
 
     mk(0, 0)
-    if rng.random() < 0.35:
-        mk(1, rng.choice(list(funcs.keys())))
+    if rng.random() < 0.45:
+        mk(1, 1 if (1 in funcs and rng.random() < 0.6) else 0)
     for _ in range(rng.randint(1, 3)):
         if rng.random() < 0.6:
             update(rng.choice(list(regs.keys())))
@@ -511,11 +511,21 @@ def object_case(rng, idx, stats):
         j = rng.choice(list(regs.keys()))
         kind = rng.choice(["clone", "clone", "copy", "assign"])
         if kind == "assign":
+            if len(regs) == 1 and rng.random() < 0.9:
+                # a target to assign to: another wrapper, of another function when there is one
+                free = [q for q in range(4) if q not in regs]
+                mk(free[0], 1 if (1 in funcs and rng.random() < 0.6) else 0)
             cands = list(regs.keys())
             k = rng.choice(cands)
-            if k == j and rng.random() < 0.8 and len(cands) > 1:
+            if k == j and rng.random() < 0.93 and len(cands) > 1:
                 k = rng.choice([c for c in cands if c != j])
             ops.append("w.assign %d %d" % (k, j))
+            if regs[k]["fid"] != regs[j]["fid"]:
+                st("ob_assign_across_functions")
+            if regs[k]["names"] != regs[j]["names"]:
+                st("ob_assign_across_sublists")
+            if k == j:
+                st("ob_assign_self")
             regs[k] = dict(names=list(regs[j]["names"]), cls=regs[k]["cls"], fid=regs[j]["fid"], kind=regs[j]["kind"])
             if regs[k]["cls"] != regs[j]["cls"]:
                 st("ob_assign_across_classes")
